@@ -417,9 +417,10 @@ impl<F: PathFetcher> PathSet<F> {
             Ok(fetched_paths)
         };
 
-        let result = path_fetch.await;
-        match result {
-            // Successful fetch and ingestion, at least one path available
+        // Ingest the fetched paths. The cache can still end up empty, as fetched paths which are
+        // already expired are dropped again. That is handled like a fetch without usable paths.
+        let fetch_result = path_fetch.await;
+        let result = match fetch_result {
             Ok(fetched_paths) => {
                 debug_assert!(
                     !fetched_paths.is_empty(),
@@ -427,10 +428,18 @@ impl<F: PathFetcher> PathSet<F> {
                 );
 
                 self.update_path_cache(fetched_paths, now, manager);
-                let earliest_expiry = self
-                    .earliest_expiry()
-                    .expect("should have a path available, as new paths were ingested");
+                self.earliest_expiry().ok_or(PathFetchError::NoPathsFound)
+            }
+            Err(e) => {
+                // Maintain path cache with no new paths
+                self.update_path_cache(vec![], now, manager);
+                Err(e)
+            }
+        };
 
+        match result {
+            // Successful fetch and ingestion, at least one path available
+            Ok(earliest_expiry) => {
                 // Reset error state
                 self.shared.sync.lock().unwrap().current_error = None;
                 self.internal.failed_attempts = 0;
@@ -443,9 +452,6 @@ impl<F: PathFetcher> PathSet<F> {
             }
             // Failed to fetch, might have no paths available
             Err(e) => {
-                // Maintain path cache with no new paths
-                self.update_path_cache(vec![], now, manager);
-
                 self.internal.failed_attempts += 1;
                 // Schedule next refetch after a delay
                 self.internal.next_refetch = now
